@@ -222,15 +222,22 @@ func c06Run(env *core.Env, ci any) core.Outcome {
 		if r.Stderr != "" {
 			return bad("stderr", "stderr not empty: %q", r.Stderr)
 		}
-		want := ""
+		rest := r.Stdout
 		if contains(c.Flags, "--print-only") {
-			want = c.File
+			if !strings.HasPrefix(rest, c.File) {
+				return bad("stdout", "--print-only did not echo the original bytes:\n got %q\nwant %q", r.Stdout, c.File)
+			}
+			rest = rest[len(c.File):]
 		}
 		if contains(c.Flags, "-v") {
-			want += sb.path("t/a.go") + ": skipped\n"
+			// one log line about the file (its wording is not the property's business)
+			var ok bool
+			if rest, ok = cutLogLine(rest, sb.path("t/a.go")); !ok {
+				return bad("stdout", "-v: expected one log line about the file, got %q", rest)
+			}
 		}
-		if r.Stdout != want {
-			return bad("stdout", "stdout differs:\n got %q\nwant %q", r.Stdout, want)
+		if rest != "" {
+			return bad("stdout", "unexpected output for a file nothing applies to: %q", rest)
 		}
 		return out
 	}
